@@ -34,6 +34,9 @@ class Task:
         self.weight = weight
 
 
+_BUDGET_HITS = mp.Value('i', 0)     # shared with the forked workers: number of tasks of this check that ran out of time
+
+
 def _run_task(task):
     """worker: returns a plain dict"""
     sys.path.insert(0, VERIF)
@@ -47,6 +50,34 @@ def _run_task(task):
                samples=[])
     I = Interp()
     I.task = task
+    # wall-clock budget of one task: code that makes the exploration blow up (e.g. a data dependent branch where the pinned code has
+    # none) must end as UNDECIDED (exit 2), not hang the check
+    import signal
+    quick = os.environ.get('PYVC_TIER', 'quick') == 'quick'
+    budget = float(os.environ.get('PYVC_TASK_BUDGET') or ((300 if task.backend in ('cc-sym', 'gf-lin') else 600) if quick else 7200))
+    if _BUDGET_HITS.value >= 16:
+        out['unsupported'] = 'Unsupported: check aborted, 16 tasks exceeded their time budget (exploration does not terminate on this code)'
+        return out
+    remaining = float(os.environ.get('PYVC_DEADLINE', '0') or 0) - time.time()
+    if os.environ.get('PYVC_DEADLINE') and remaining <= 1:
+        out['unsupported'] = 'Unsupported: time budget of the whole check exhausted before this task started'
+        return out
+    if os.environ.get('PYVC_DEADLINE'):
+        budget = max(1.0, min(budget, remaining))
+
+    hit = []
+
+    def on_alarm(signum, frame):
+        if not hit:
+            hit.append(1)
+            with _BUDGET_HITS.get_lock():
+                _BUDGET_HITS.value += 1
+        raise Unsupported('time budget of the task exceeded (%d s): exploration does not terminate on this code' % budget)
+    try:
+        signal.signal(signal.SIGALRM, on_alarm)
+        signal.setitimer(signal.ITIMER_REAL, budget, 2.0)
+    except (ValueError, AttributeError):
+        pass
     try:
         mod = importlib.import_module(task.module)
         fn = getattr(mod, task.func)
@@ -55,6 +86,11 @@ def _run_task(task):
         out['unsupported'] = '%s: %s' % (type(u).__name__, u)
     except Exception:
         out['error'] = traceback.format_exc()
+    finally:
+        try:
+            signal.setitimer(signal.ITIMER_REAL, 0)
+        except (ValueError, AttributeError):
+            pass
     out['records'] = [r.to_json() for r in I.records.values()]
     out['failures'] = [dict(name=f.name, kind=f.kind, status=f.status, model=f.model, note=f.note,
                             replay=getattr(f, 'replay', None)) for f in I.failures]
@@ -108,6 +144,14 @@ def replay_failure(prop, idx, fail):
     return path, rec['native'].get('confirmed'), rec['native'].get('detail', '')
 
 
+def load_ledger():
+    try:
+        with open(os.path.join(VERIF, 'ledger.json')) as f:
+            return json.load(f).get('obligation_ids', {})
+    except (OSError, ValueError):
+        return {}
+
+
 def file_hashes():
     from pyvc import extract
     out = {}
@@ -126,6 +170,9 @@ def run_property(prop, contract_module, tier='quick', seed=0, procs=None, extra_
     from pyvc import extract
     extract.ensure_repo_on_path()
     mod = importlib.import_module(contract_module)
+    os.environ['PYVC_TIER'] = tier
+    # budget of the whole check (all tasks): quick 25 min, thorough 8 h; normal runs take about a minute / a few minutes
+    os.environ['PYVC_DEADLINE'] = repr(t0 + float(os.environ.get('PYVC_CHECK_BUDGET') or (1500 if tier == 'quick' else 28800)))
     tasks = mod.tasks(tier, seed)
     procs = procs or min(16, max(1, len(tasks)))
     tasks_sorted = sorted(tasks, key=lambda t: -t.weight)
@@ -229,8 +276,16 @@ def run_property(prop, contract_module, tier='quick', seed=0, procs=None, extra_
     if n_inst == 0 and not (level != 'proof' and n_bounded > 0):
         rc = 3
         lines.append('CHECKER-ERROR zero obligations generated for %s' % prop)
-    if rc == 0 and (unsupported or undecided):
+    # ledger: obligation ids discharged on the pinned tree must be generated again (a contract that no longer
+    # attaches to the code - renamed function, changed loop structure - must not pass silently)
+    missing = []
+    led = load_ledger().get(prop)
+    if led:
+        missing = [n for n in led if n not in records]
+    if rc == 0 and (unsupported or undecided or missing):
         rc = 2
+    for n in missing[:20]:
+        lines.append('UNDECIDED obligation=%s reason=generated on the pinned tree (ledger.json) but not on this run' % n)
     for name, why in unsupported:
         lines.append('UNDECIDED task=%s reason=%s' % (name, why))
     for f in undecided[:20]:
@@ -263,6 +318,7 @@ def run_property(prop, contract_module, tier='quick', seed=0, procs=None, extra_
                           detail=e['detail'][:400], instances=e['count'],
                           known_finding=(e['known'] or {}).get('id')) for e in seen.values()],
             known_findings=[l for l in kf_lines],
+            ledger=dict(ids_expected=len(led or []), missing=missing),
             bounded_clauses=[dict(clause=a['name'], evaluations=a['instances'], passed=a['discharged'],
                                   note='BOUNDED stand-in: run-time check of the contract on generated inputs; not counted in obligations/discharged')
                              for a in records.values() if a['kind'] == 'bounded'],
